@@ -257,3 +257,14 @@ Example C08_example_router :
   handle_req_store (PathMiss UpFail) = None /\ handle_req_store PathHit = None /\
   handle_req_store (PathMiss (UpReply ex_nx)) = Some (Some ex_nx) /\ prefetch_store UpFail = None.
 Proof. repeat split. Qed.
+
+(* Observation outside the property's reach in this sandbox (no redis): MemoryCache.Store called with an expireTime
+   2 s or more in the PAST (only the redis-promotion path of cacheCtl.Get can do that, with clock skew between hosts)
+   hands otter a negative TTL, which getTTL converts to a wrapped uint32: while otter's clock is still below the
+   overshoot (first seconds of the process) the entry is effectively immortal; later it is expired at once.
+   Reproduced on the real MemoryCache (docs/notes/C08.md).  cacheCtl.Store itself always passes L - eps > 0. *)
+Example C08_observation_past_expiry :
+  otter_expiration 0 (-3 * SECOND - 1000) = 4294967294%N /\
+  has_expired 4294967293 (mkEntry 0 0 ex_nx true (otter_expiration 0 (-3 * SECOND - 1000))) = false /\
+  has_expired 3 (mkEntry 0 0 ex_nx true (otter_expiration 3 (-3 * SECOND - 1000))) = true.
+Proof. vm_compute. repeat split. Qed.
